@@ -305,7 +305,9 @@ EnumI  == TEnum("Num", <<MkInt(1), MkInt(2)>>)
 SubI   == TSub("MyInt", TInt)
 SubS   == TSub("MyStr", TStr)
 ExtraLeaves == { LitIS, TLit(<<MkBool("T")>>), EnumS, EnumI, SubI, SubS,
-                 TDict("dict", TUnion(<<TStr, TInt>>), TFloat), TDict("dict", TUnion(<<TInt, TS("fraction")>>), TInt) }
+                 TDict("dict", TUnion(<<TStr, TInt>>), TFloat), TDict("dict", TUnion(<<TInt, TS("fraction")>>), TInt),
+                 \* (mappings of anything to anything: these may be written without type arguments)
+                 TDict("dict", TS("any"), TS("any")), TDict("defaultdict", TS("any"), TS("any")), TDict("ordereddict", TS("any"), TS("any")) }
 
 (* C02: the target kinds of the matrix *)
 MatrixTargets ==
